@@ -237,7 +237,7 @@ func (r *Report) Finish() int {
 	if len(r.knownHits) > 0 {
 		cov["known_findings_hit"] = r.knownHits
 	}
-	if cov["samples"] == nil {
+	if len(r.Samples) == 0 {
 		cov["samples"] = []any{}
 	}
 	ev := map[string]any{
